@@ -1584,6 +1584,467 @@ async def c07_windows_bounded(w):
             "bound": f"{n_lists} lists of <= 4 range() entries x end points +/- 1us on up to 3 days (seeded)", "cases": cases, "failures": failures, "reproduced": bool(failures)}
 
 
+# ---------------------------------------------------------------------------------------------------------
+# C06: time specifications: structured generator, denotation from the STRUCTURE, real functions on the TEXT
+# ---------------------------------------------------------------------------------------------------------
+C06_DOW = ["sun", "mon", "tue", "wed", "thu", "fri", "sat"]
+C06_DOW_FULL = ["sunday", "monday", "tuesday", "wednesday", "thursday", "friday", "saturday"]
+C06_UNITS = {1: ["", "s", "sec", "second", "seconds"], 60: ["m", "min", "mins", "minute", "minutes"], 3600: ["h", "hr", "hour", "hours"],
+             86400: ["d", "day", "days"], 604800: ["w", "week", "weeks"]}
+
+
+def c06_render_num(rng, x):
+    if isinstance(x, int):
+        return rng.choice([str(x), f"0{x}" if rng.random() < 0.2 else str(x), f"{x}.0" if rng.random() < 0.2 else str(x)])
+    return repr(x)
+
+
+def c06_render_offset(rng, off):
+    sign, num, scale = off
+    unit = rng.choice(C06_UNITS[scale])
+    return f"{sign}{rng.choice(['', ' '])}{c06_render_num(rng, num)}{rng.choice(['', ' ']) if unit else ''}{unit}"
+
+
+def c06_offset_secs(off):
+    if off is None:
+        return 0.0
+    sign, num, scale = off
+    return (1 if sign == "+" else -1) * num * scale
+
+
+def c06_gen_dt(rng, allow_now=True, dates=("none", "dow", "full", "md")):
+    dk = rng.choice(dates)
+    if dk == "dow":
+        date = ("dow", rng.randrange(7))
+    elif dk == "full":
+        date = ("full", rng.choice([2023, 2024, 2025]), rng.choice([1, 2, 3, 11, 12]), rng.choice([1, 9, 10, 28]))
+    elif dk == "md":
+        date = ("md", rng.choice([1, 2, 3, 11, 12]), rng.choice([1, 9, 10, 28, 31]))
+        if date[2] == 31 and date[1] in (2, 11):
+            date = ("md", 12, 31)
+    else:
+        date = ("none",)
+    r = rng.random()
+    if r < 0.55:
+        tod = ("hms", rng.choice([0, 1, 9, 10, 12, 23]), rng.choice([0, 1, 9, 30, 59]), rng.choice([None, None, 0, 1, 59, 30.5]))
+    elif r < 0.7:
+        tod = ("noon",)
+    elif r < 0.85:
+        tod = ("midnight",)
+    elif r < 0.93 or not allow_now or date[0] != "none":
+        tod = ("omitted",) if date[0] != "none" else ("hms", rng.randrange(24), 0, None)
+    else:
+        tod = ("now",)
+    off = rng.choice([None, None, None, ("+", 30, 60), ("-", 1, 3600), ("+", 90, 1), ("-", 15, 60), ("+", 1.5, 3600), ("+", 1, 86400)])
+    return (date, tod, off)
+
+
+def c06_render_dt(rng, p):
+    date, tod, off = p
+    s = ""
+    if date[0] == "dow":
+        s += rng.choice([C06_DOW, C06_DOW_FULL])[date[1]]
+    elif date[0] == "full":
+        sep = rng.choice(["/", "-"])
+        s += f"{date[1]}{sep}{date[2]:02d}{sep}{date[3]:02d}" if rng.random() < 0.7 else f"{date[1]}{sep}{date[2]}{sep}{date[3]}"
+    elif date[0] == "md":
+        s += f"{date[1]}/{date[2]}" if rng.random() < 0.5 else f"{date[1]:02d}/{date[2]:02d}"
+    if tod[0] == "hms":
+        t = f"{tod[1]}:{tod[2]:02d}" if rng.random() < 0.5 else f"{tod[1]:02d}:{tod[2]:02d}"
+        if tod[3] is not None:
+            t += f":{tod[3]:02d}" if isinstance(tod[3], int) else f":{tod[3]}"
+        s += (" " if s else "") + t
+    elif tod[0] != "omitted":
+        s += (" " if s else "") + tod[0]
+    if off:
+        s += " " + c06_render_offset(rng, off)
+    return s
+
+
+def c06_tod_secs(tod):
+    if tod[0] == "hms":
+        return tod[1] * 3600 + tod[2] * 60 + (tod[3] or 0)
+    return 12 * 3600 if tod[0] == "noon" else 0
+
+
+def c06_instants_once(p, lo, hi, startup):
+    """all instants the once() datetime denotes inside [lo, hi] (documented meaning)"""
+    import datetime as dtm
+    date, tod, off = p
+    delta = dtm.timedelta(seconds=c06_tod_secs(tod) + c06_offset_secs(off))
+    if tod[0] == "now":
+        return [startup + dtm.timedelta(seconds=c06_offset_secs(off))]
+    out = []
+    if date[0] == "full":
+        out.append(dtm.datetime(date[1], date[2], date[3]) + delta)
+    elif date[0] == "md":
+        for y in range(lo.year - 1, hi.year + 2):
+            out.append(dtm.datetime(y, date[1], date[2]) + delta)
+    else:
+        d = (lo - dtm.timedelta(days=12)).date()
+        while d <= (hi + dtm.timedelta(days=12)).date():
+            if date[0] == "none" or d.isoweekday() % 7 == date[1]:
+                out.append(dtm.datetime(d.year, d.month, d.day) + delta)
+            d += dtm.timedelta(days=1)
+    return [t for t in out if lo <= t <= hi]
+
+
+def c06_cron_fields(expr):
+    def field(txt, lo, hi):
+        if txt == "*":
+            return None
+        vals = set()
+        for part in txt.split(","):
+            step = 1
+            if "/" in part:
+                part, st = part.split("/")
+                step = int(st)
+            if part == "*":
+                a, b = lo, hi
+            elif "-" in part:
+                a, b = map(int, part.split("-"))
+            else:
+                a = b = int(part)
+                if step != 1:
+                    b = hi
+            vals |= set(range(a, b + 1, step))
+        return vals
+    m, h, dom, mon, dow = expr.split()
+    return field(m, 0, 59), field(h, 0, 23), field(dom, 1, 31), field(mon, 1, 12), field(dow, 0, 6)
+
+
+def c06_cron_next(expr, now, limit_days=3000):
+    """next wall-clock instant strictly after `now` matching a 5-field crontab expression (dom/dow OR rule)"""
+    import datetime as dtm
+    M, H, DOM, MON, DOW = c06_cron_fields(expr)
+    d = now.date()
+    for _ in range(limit_days):
+        ok_mon = MON is None or d.month in MON
+        dom_ok = DOM is None or d.day in DOM
+        dow_ok = DOW is None or (d.isoweekday() % 7) in DOW
+        day_ok = (dom_ok or dow_ok) if (DOM is not None and DOW is not None) else (dom_ok and dow_ok)
+        if ok_mon and day_ok:
+            for hh in sorted(H) if H is not None else range(24):
+                for mm in sorted(M) if M is not None else range(60):
+                    t = dtm.datetime(d.year, d.month, d.day, hh, mm)
+                    if t > now:
+                        return t
+        d += dtm.timedelta(days=1)
+    return None
+
+
+def c06_gen_spec(rng):
+    """(kind, structure, text)"""
+    r = rng.random()
+    if r < 0.5:
+        p = c06_gen_dt(rng)
+        return ("once", p, f"once({c06_render_dt(rng, p)})")
+    if r < 0.8:
+        # period: dated / now-based start (any interval), or time-only start with start < interval and interval | 24h
+        if rng.random() < 0.5:
+            start = c06_gen_dt(rng, dates=("full",))
+            start = (start[0], start[1] if start[1][0] != "now" else ("noon",), start[2])
+            interval = rng.choice([(7, 60), (1, 3600), (90, 1), (1, 86400), (2.5, 3600), (1, 604800)])
+        else:
+            interval = rng.choice([(30, 60), (1, 3600), (6, 3600), (20, 60)])
+            secs = interval[0] * interval[1]
+            st = rng.randrange(0, int(secs), 60)
+            start = (("none",), ("hms", st // 3600, (st % 3600) // 60, None), None)
+        num, scale = interval
+        itxt = f"{c06_render_num(rng, num)}{rng.choice(['', ' '])}{rng.choice([u for u in C06_UNITS[scale] if u])}"
+        end = None
+        if rng.random() < 0.4:
+            if start[0][0] == "full":
+                e = c06_gen_dt(rng, dates=("full",))
+                end = (e[0], e[1] if e[1][0] != "now" else ("noon",), e[2])
+            else:
+                end = (("none",), ("hms", rng.randrange(24), rng.choice([0, 30]), None), None)
+        txt = f"period({c06_render_dt(rng, start)}, {itxt}" + (f", {c06_render_dt(rng, end)})" if end else ")")
+        return ("period", (start, num * scale, end), txt)
+    expr = rng.choice(["0 18 * * *", "*/15 * * * *", "30 6 * * 1-5", "0 0 1 * *", "1 1-4 * * *", "5,35 9-17 * * 0,6", "0 12 29 2 *", "15 10 13 * 5", "59 23 31 12 *"])
+    return ("cron", expr, f"cron({expr})")
+
+
+def c06_next_reference(spec, now, startup):
+    """min{t in denote(spec): t > now} (or = now when now is the startup instant and denoted); None if empty"""
+    import datetime as dtm
+    kind, st, _ = spec
+    if kind == "cron":
+        return c06_cron_next(st, now)
+    if kind == "once":
+        lo, hi = now - dtm.timedelta(days=3), now + dtm.timedelta(days=800)
+        cands = c06_instants_once(st, lo, hi, startup)
+    else:
+        start, per, end = st
+        cands = []
+        if start[0][0] == "full" or start[1][0] == "now":
+            s0 = c06_instants_once(start, dtm.datetime(1990, 1, 1), dtm.datetime(2100, 1, 1), startup)[0]
+            e0 = c06_instants_once(end, dtm.datetime(1990, 1, 1), dtm.datetime(2100, 1, 1), startup)[0] if end else None
+            import math
+            k = max(0, math.floor((now - s0).total_seconds() / per) - 1)
+            for j in range(k, k + 4):
+                t = s0 + dtm.timedelta(seconds=per * j)
+                if e0 is None or t <= e0:
+                    cands.append(t)
+        else:
+            # daily re-anchored: each day D has start D+s and (optionally) end D+e (next day when e < s)
+            for dd in range(-2, 3):
+                D = dtm.datetime(now.year, now.month, now.day) + dtm.timedelta(days=dd)
+                s0 = D + dtm.timedelta(seconds=c06_tod_secs(start[1]))
+                if end is None:
+                    e0 = s0 + dtm.timedelta(days=1) - dtm.timedelta(microseconds=1)
+                else:
+                    e0 = D + dtm.timedelta(seconds=c06_tod_secs(end[1]))
+                    if e0 < s0:
+                        e0 += dtm.timedelta(days=1)
+                j = 0
+                while True:
+                    t = s0 + dtm.timedelta(seconds=per * j)
+                    if t > e0:
+                        break
+                    cands.append(t)
+                    j += 1
+    good = [t for t in cands if t > now or (t == now and now == startup)]
+    return min(good) if good else None
+
+
+async def c06_next_bounded(w):
+    """Bounded stand-in for the text level of time specifications (scanners + calendar arithmetic): random specifications
+    from the documented grammar, rendered to text in several spellings; the REAL timer_trigger_next on the text is compared
+    with min{t in denote(spec), t > now} computed from the structure, at the denoted instants +/- 1 us, on leap days,
+    month / year ends, and for lists of up to 3 specifications."""
+    import random
+    import datetime as dtm
+    from custom_components.pyscript.trigger import TrigTime
+    await boot_full()
+    rng = random.Random(60606 + int(w.get("seed", 0)))
+    n = int(w.get("specs", 500))
+    us = dtm.timedelta(microseconds=1)
+    startup = dtm.datetime(2024, 2, 27, 7, 30, 15)
+    anchors = [dtm.datetime(2024, 2, 28, 23, 59, 59), dtm.datetime(2024, 2, 29, 12, 0, 0), dtm.datetime(2024, 12, 31, 23, 59, 59, 999999),
+               dtm.datetime(2023, 12, 31, 12, 0), dtm.datetime(2024, 3, 10, 1, 30), dtm.datetime(2024, 11, 3, 1, 30), startup]
+    failures, cases, by_kind = [], 0, {}
+    only = w.get("only")
+    for _ in range(n):
+        specs = [c06_gen_spec(rng) for _k in range(rng.choice([1, 1, 1, 2, 3]))]
+        if only and any(s[0] != only for s in specs):
+            continue
+        texts = [s[2] for s in specs]
+        nows = list(rng.sample(anchors, 2)) + [dtm.datetime(2024, rng.randrange(1, 13), rng.randrange(1, 29), rng.randrange(24), rng.randrange(60), rng.randrange(60))]
+        for base in list(nows):
+            for sp in specs:
+                r = c06_next_reference(sp, base, startup)
+                if r is not None and abs((r - base).total_seconds()) < 400 * 86400:
+                    nows += [r - us, r, r + us]
+        for now in nows[:14]:
+            refs = [c06_next_reference(sp, now, startup) for sp in specs]
+            want = min([r for r in refs if r is not None], default=None)
+            try:
+                got, got_adj = await TrigTime.timer_trigger_next(texts if len(texts) > 1 else (texts[0] if rng.random() < 0.5 else texts), now, startup)
+            except Exception as e:  # noqa
+                got, got_adj = "exception:" + repr(e), None
+            cases += 1
+            for sp in specs:
+                by_kind[sp[0]] = by_kind.get(sp[0], 0) + 1
+            if got != want and len(failures) < int(w.get("max_failures", 3)):
+                failures.append({"signature": f"next:{texts}@{now.isoformat()}", "specs": texts, "now": now.isoformat(), "startup": startup.isoformat(),
+                                 "observed": str(got), "expected": str(want)})
+            elif got is not None and all(sp[0] != "cron" for sp in specs) and got_adj != got and len(failures) < int(w.get("max_failures", 3)):
+                failures.append({"signature": f"adj:{texts}@{now.isoformat()}", "specs": texts, "now": now.isoformat(), "observed": f"wait until {got_adj}",
+                                 "expected": f"once/period instants are naive local arithmetic: wait until {got}"})
+    # daylight saving: cron follows the wall clock (the WAIT is 23 h / 25 h across a change), period stays equally spaced
+    import zoneinfo
+    from homeassistant.util import dt as dt_util
+    saved_tz = dt_util.DEFAULT_TIME_ZONE
+    tz = zoneinfo.ZoneInfo("America/Los_Angeles")
+    dt_util.set_default_time_zone(tz)
+    try:
+        for expr in ("0 18 * * *", "30 6 * * *", "0 0 * * *", "15 12 * * 0"):
+            for day in (dtm.datetime(2024, 3, 9), dtm.datetime(2024, 3, 10), dtm.datetime(2024, 11, 2), dtm.datetime(2024, 11, 3), dtm.datetime(2024, 6, 1)):
+                for hh in (0, 5, 12, 19, 23):
+                    now = day + dtm.timedelta(hours=hh, minutes=7)
+                    want = c06_cron_next(expr, now)
+                    real_wait = (want.replace(tzinfo=tz).astimezone(dtm.timezone.utc) - now.replace(tzinfo=tz).astimezone(dtm.timezone.utc)).total_seconds()
+                    got, got_adj = await TrigTime.timer_trigger_next(f"cron({expr})", now, startup)
+                    cases += 1
+                    if (got != want or abs((got_adj - now).total_seconds() - real_wait) > 1e-6) and len(failures) < int(w.get("max_failures", 3)):
+                        failures.append({"signature": f"dst:cron({expr})@{now.isoformat()}", "specs": [f"cron({expr})"], "now": now.isoformat(),
+                                         "observed": f"next {got}, wait {(got_adj - now).total_seconds()} s", "expected": f"next {want}, wait {real_wait} s"})
+        for now in (dtm.datetime(2024, 3, 9, 19, 0), dtm.datetime(2024, 11, 2, 19, 0)):
+            got, got_adj = await TrigTime.timer_trigger_next("period(2024/01/01 18:00, 1 day)", now, startup)
+            cases += 1
+            want = dtm.datetime(now.year, now.month, now.day + 1, 18, 0)
+            if (got != want or got_adj != want) and len(failures) < int(w.get("max_failures", 3)):
+                failures.append({"signature": f"dst:period@{now.isoformat()}", "specs": ["period(2024/01/01 18:00, 1 day)"], "now": now.isoformat(),
+                                 "observed": f"{got} / {got_adj}", "expected": f"{want} (equally spaced, no adjustment)"})
+    finally:
+        dt_util.set_default_time_zone(saved_tz)
+    await shutdown()
+    return {"unit": "TrigTime.timer_trigger_next + parse_date_time + parse_time_offset on real text", "method": "structured random specs vs denotation computed from the structure",
+            "bound": f"{n} specification lists (<= 3 specs) x <= 14 current times (denoted instants +/- 1us, leap day, year end, DST days)", "cases": cases,
+            "specs_by_kind": by_kind, "failures": failures, "reproduced": bool(failures)}
+
+
+async def c06_next_witness(w):
+    """Concrete instances of the failed timer_trigger_next obligation on the real function (real parse_date_time)."""
+    import datetime as dtm
+    from custom_components.pyscript.trigger import TrigTime
+    await boot_full()
+    startup = dtm.datetime(2024, 3, 13, 8, 0, 0)   # a Wednesday
+    cases = {
+        # what -> (spec, now, startup, expected)
+        "none-for-recurring": [("once(8:00)", dtm.datetime(2024, 3, 13, 8, 0, 1), startup, dtm.datetime(2024, 3, 14, 8, 0)),
+                               ("once(wed 8:00)", dtm.datetime(2024, 3, 13, 9, 0, 0), startup, dtm.datetime(2024, 3, 20, 8, 0)),
+                               ("once(wed 8:00)", dtm.datetime(2024, 3, 13, 9, 0, 0), dtm.datetime(2024, 3, 1, 7, 0), dtm.datetime(2024, 3, 20, 8, 0)),
+                               ("once(8:00)", dtm.datetime(2024, 3, 13, 9, 0, 0), dtm.datetime(2024, 3, 1, 7, 0), dtm.datetime(2024, 3, 14, 8, 0))],
+        "skipped": [("once(tue 23:00 + 2h)", dtm.datetime(2024, 3, 13, 0, 30), dtm.datetime(2024, 3, 1, 7, 0), dtm.datetime(2024, 3, 13, 1, 0)),
+                    ("once(23:00 + 2h)", dtm.datetime(2024, 3, 13, 0, 30), dtm.datetime(2024, 3, 1, 7, 0), dtm.datetime(2024, 3, 13, 1, 0)),
+                    ("period(2024/03/01 00:00, 7 min)", dtm.datetime(2024, 3, 13, 0, 30), dtm.datetime(2024, 3, 1, 7, 0), dtm.datetime(2024, 3, 13, 0, 31))],
+        "not-after-now": [("once(8:00)", dtm.datetime(2024, 3, 13, 8, 0, 0), dtm.datetime(2024, 3, 1, 7, 0), dtm.datetime(2024, 3, 14, 8, 0)),
+                          ("period(2024/03/13 08:00, 1h)", dtm.datetime(2024, 3, 13, 9, 0, 0), dtm.datetime(2024, 3, 1, 7, 0), dtm.datetime(2024, 3, 13, 10, 0))],
+        "none-for-period": [("period(2024/03/01 00:00, 7 min)", dtm.datetime(2024, 3, 13, 0, 30), dtm.datetime(2024, 3, 1, 7, 0), dtm.datetime(2024, 3, 13, 0, 31))],
+    }
+    todo = cases.get(w.get("what")) or [c for v in cases.values() for c in v]
+    bad = []
+    for spec, now, st, want in todo:
+        got, _ = await TrigTime.timer_trigger_next(spec, now, st)
+        if got != want:
+            bad.append({"spec": spec, "now": now.isoformat(), "startup": st.isoformat(), "observed": str(got), "expected": str(want)})
+    await shutdown()
+    return {"reproduced": bool(bad), "observed": bad[:4], "expected": "the earliest denoted instant strictly after now"}
+
+
+async def c06_offset_unit(w):
+    """parse_time_offset on every documented unit spelling and on the counterexample unit"""
+    from custom_components.pyscript.trigger import parse_time_offset
+    bad = []
+    table = {1: ["", "s", "sec", "second", "seconds"], 60: ["m", "min", "mins", "minute", "minutes"], 3600: ["h", "hr", "hour", "hours"],
+             86400: ["d", "day", "days"], 604800: ["w", "week", "weeks"]}
+    for scale, names in table.items():
+        for n in names:
+            for txt in (f"+ 3{n}", f"-1.5 {n}", f"2e1{(' ' + n) if n else ''}"):
+                val = float(txt.replace(" ", "").rstrip("abcdefghijklmnopqrstuvwxyz")) if n else float(txt.replace(" ", ""))
+                got = parse_time_offset(txt)
+                if abs(got - val * scale) > 1e-9:
+                    bad.append({"text": txt, "observed": got, "expected": val * scale})
+    return {"reproduced": bool(bad), "observed": bad[:5], "expected": "value x documented scale"}
+
+
+C06_RUN_PROGRAMS = [
+    # (decorator arguments, horizon seconds)
+    (['period(now, 10s, now + 35s)'], 60),
+    (['once(now + 12s)', 'period(now + 5s, 20 sec)'], 70),
+    (['once(now)'], 20),
+    (['startup', 'once(now + 3s)'], 20),
+    (['startup', 'shutdown'], 10),
+    (['period(now + 10m, 5min, now + 30min)'], 2400),
+    (['once(12:00:30)', 'once(12:01:00 - 15s)', 'cron(* * * * *)'], 150),
+    (['period(12:00, 30 sec, 12:02)'], 200),
+    ([], 10),
+]
+
+
+async def c06_runs_bounded(w):
+    """Bounded stand-in for the wait-and-fire loops as a whole: fixed @time_trigger programs run by the REAL subsystem on a
+    virtual clock; the recorded (time, trigger_time) pairs must be exactly the denoted instants, once each, in increasing
+    order, with startup / shutdown entries once at definition / removal."""
+    import datetime as dtm
+    from types import SimpleNamespace as NS
+    from custom_components.pyscript import trigger as T
+    from custom_components.pyscript.global_ctx import GlobalContext, GlobalContextMgr
+    loop = asyncio.get_running_loop()
+    failures, cases = [], 0
+    base = dtm.datetime(2024, 3, 13, 12, 0, 0)
+    for legacy in (False, True):
+        hass = await boot_full(legacy=legacy)
+        vt = getattr(loop, "_c05_vt", None) or install_virtual_time(loop)
+        loop._c05_vt = vt
+        for pi, (args, horizon) in enumerate(C06_RUN_PROGRAMS):
+            t0 = vt[0]
+            T.time = NS(monotonic=lambda: vt[0])
+            last_now = [None]
+
+            def dt_now_virtual():
+                # strictly increasing readings (a real clock never returns the same microsecond to a loop that awaited in between)
+                v = base + dtm.timedelta(seconds=round(vt[0] - t0, 6))
+                if last_now[0] is not None and v <= last_now[0]:
+                    v = last_now[0] + dtm.timedelta(microseconds=1)
+                last_now[0] = v
+                return v
+            T.dt_now = dt_now_virtual
+            runs = []
+            argtxt = ", ".join(repr(a) for a in args)
+            src = (f"@time_trigger({argtxt})\n" if args else "@time_trigger\n") + "def f(**kw):\n    record(kw)\n"
+            name = f"file.c06_{'l' if legacy else 'n'}_{pi}"
+            gctx = GlobalContext(name, global_sym_table={"__name__": name, "record": lambda kw_: runs.append((round(vt[0] - t0, 3), kw_.get("trigger_time")))},
+                                 manager=GlobalContextMgr)
+            GlobalContextMgr.set(name, gctx)
+            gctx.set_auto_start(True)
+            _, _, exc = await run_source(name, src, global_ctx=gctx)
+            await settle(30)
+            await asyncio.sleep(horizon)
+            await settle(30)
+            n_before_stop = len(runs)
+            gctx.stop()
+            GlobalContextMgr.delete(name)
+            await settle(30)
+            # reference: startup entry, then iterate the denotation, then the shutdown entry
+            specs_txt = [a for a in args if a not in ("startup", "shutdown")]
+            want = []
+            if not args or "startup" in args:
+                want.append((0.0, "startup"))
+            structs = []
+            for a in specs_txt:
+                structs.append(c06_parse_program_spec(a))
+            now = base
+            first = True
+            while structs:
+                refs = [c06_next_reference(sp, now, base) for sp in structs]
+                if first:
+                    refs = [r for r in refs]
+                nxt = min([r for r in refs if r is not None], default=None)
+                first = False
+                if nxt is None or (nxt - base).total_seconds() > horizon:
+                    break
+                want.append((round((nxt - base).total_seconds(), 3), nxt))
+                now = nxt if nxt > now else now + dtm.timedelta(microseconds=1)
+            if "shutdown" in args:
+                want.append(("at-removal", "shutdown"))
+            got = [(t, tt) for (t, tt) in runs[:n_before_stop]] + [("at-removal", tt) for (t, tt) in runs[n_before_stop:]]
+            cases += 1
+
+            def close(a, b):
+                if isinstance(a, dtm.datetime) and isinstance(b, dtm.datetime):
+                    return abs((a - b).total_seconds()) < 0.001
+                if isinstance(a, float) and isinstance(b, float):
+                    return abs(a - b) < 0.002
+                return a == b
+            same = len(got) == len(want) and all(close(g[0], x[0]) and close(g[1], x[1]) for g, x in zip(got, want))
+            if not same or exc is not None:
+                failures.append({"signature": f"runs:{'legacy' if legacy else 'new'}:{args}", "subsystem": "legacy" if legacy else "new", "time_trigger": args,
+                                 "observed": [(t, str(x)) for t, x in got][:12], "expected": [(t, str(x)) for t, x in want][:12], "error": repr(exc) if exc else None})
+        await shutdown()
+    return {"unit": "trigger_watch time branch / TimeTriggerDecorator._cycle + stop", "method": "fixed @time_trigger programs on a virtual clock vs iterated denotation",
+            "bound": f"{len(C06_RUN_PROGRAMS)} programs x 2 subsystems", "cases": cases, "failures": failures[:4], "reproduced": bool(failures)}
+
+
+def c06_parse_program_spec(txt):
+    """structure of the fixed programs' specs (hand-written here, independent of the code under test)"""
+    table = {
+        'period(now, 10s, now + 35s)': ("period", ((("none",), ("now",), None), 10, (("none",), ("now",), ("+", 35, 1))), txt),
+        'once(now + 12s)': ("once", (("none",), ("now",), ("+", 12, 1)), txt),
+        'period(now + 5s, 20 sec)': ("period", ((("none",), ("now",), ("+", 5, 1)), 20, None), txt),
+        'once(now)': ("once", (("none",), ("now",), None), txt),
+        'once(now + 3s)': ("once", (("none",), ("now",), ("+", 3, 1)), txt),
+        'period(now + 10m, 5min, now + 30min)': ("period", ((("none",), ("now",), ("+", 10, 60)), 300, (("none",), ("now",), ("+", 30, 60))), txt),
+        'once(12:00:30)': ("once", (("none",), ("hms", 12, 0, 30), None), txt),
+        'once(12:01:00 - 15s)': ("once", (("none",), ("hms", 12, 1, 0), ("-", 15, 1)), txt),
+        'cron(* * * * *)': ("cron", "* * * * *", txt),
+        'period(12:00, 30 sec, 12:02)': ("period", ((("none",), ("hms", 12, 0, None), None), 30, (("none",), ("hms", 12, 2, None), None)), txt),
+    }
+    return table[txt]
+
+
 SCENARIOS = {k: v for k, v in list(globals().items()) if asyncio.iscoroutinefunction(v) and k[0] == "c"}
 
 if __name__ == "__main__":
